@@ -28,7 +28,9 @@ ASSUMPTIONS = [
     "case (reported as test)",
     "data: complete factorial over the categorical variables used by the formula, crossed with the "
     "2^k grid x in {0, 2}, z in {1, 3} of the numeric variables used (so 1, x, z, x*z are linearly "
-    "independent on the replicates of every cell and scale(x) = x - 1 exactly); rows shuffled",
+    "independent on the replicates of every cell and scale(x) = x - 1 exactly), or the same grid "
+    "moved by one half (float columns; the matrix times 4 is then integral); rows shuffled; level "
+    "counts 2..4, and 1 in the one-level-factor cases",
     "component kinds (numeric / categoric) and Call-ness are taken from the generator's atom table "
     "and cross-checked against the implementation's component objects",
     "create_extra_term's deepcopy of a typed Call raises for every ordinary caller (the captured "
@@ -55,6 +57,10 @@ ERR_CLASS = {"index_error": "IndexError", "deepcopy": "TypeError", "empty_extra_
 CAT_VARS = ["f", "g", "h", "k"]
 NUM_VARS = ["x", "z"]
 NUM_VALUES = {"x": (0, 2), "z": (1, 3)}
+# the same grid moved by one half (float columns): every entry of the design times GRID_SCALE is an
+# integer, scale(x) = x - 1.5 is still exact, and a loss of the fractional part anywhere shows
+NUM_VALUES_HALF = {"x": (0.5, 2.5), "z": (1.5, 3.5)}
+GRID_SCALE = 4
 
 
 def atom_info(a):
@@ -115,15 +121,16 @@ def rank_profile(rows, ncols_first):
 _FRAMES = {}
 
 
-def get_frame(cats, nums, levels, shuffle_seed):
+def get_frame(cats, nums, levels, shuffle_seed, grid="int"):
     """complete factorial over `cats` (level counts from `levels`) x grid of `nums`"""
     import pandas as pd
-    key = (tuple(cats), tuple(nums), tuple(levels[c] for c in cats), shuffle_seed)
+    key = (tuple(cats), tuple(nums), tuple(levels[c] for c in cats), shuffle_seed, grid)
     if key in _FRAMES:
         return _FRAMES[key]
     rows = []
+    values = NUM_VALUES_HALF if grid == "half" else NUM_VALUES
     for cell in itertools.product(*[range(levels[c]) for c in cats]):
-        for nv in itertools.product(*[NUM_VALUES[v] for v in nums]):
+        for nv in itertools.product(*[values[v] for v in nums]):
             row = {c: f"{c}{i}" for c, i in zip(cats, cell)}
             row.update(dict(zip(nums, nv)))
             row["y"] = 0
@@ -135,9 +142,10 @@ def get_frame(cats, nums, levels, shuffle_seed):
     return df
 
 
-def full_indicator(df, terms, intercept):
+def full_indicator(df, terms, intercept, grid="int"):
     """reference coding: every term coded with a complete set of level indicators (times its numeric
-    factors), plus the constant when the model has an intercept; integer columns"""
+    factors), plus the constant when the model has an intercept; integer columns (on the half grid
+    every numeric factor is doubled, which rescales columns and leaves the column space alone)"""
     n = len(df)
     cols = []
     if intercept:
@@ -150,7 +158,11 @@ def full_indicator(df, terms, intercept):
             v = atom_info(a)[2]
             vals = df[v].tolist()
             if a.startswith("scale("):
-                vals = [x - 1 for x in vals]          # mean 1, population sd 1 on the grid {0, 2}
+                # mean 1 (1.5 on the half grid), population sd 1 on the grid {0, 2}
+                vals = [x - (1.5 if grid == "half" else 1) for x in vals]
+            if grid == "half":
+                vals = [2 * x for x in vals]
+                assert all(float(x).is_integer() for x in vals)
             numcol = [p * int(q) for p, q in zip(numcol, vals)]
         lvls = [sorted(set(df[c])) for c in cat]
         data = [df[c].tolist() for c in cat]
@@ -188,7 +200,8 @@ def observe(case):
     atoms = sorted({a for t in terms for a in t})
     cats = sorted({atom_info(a)[2] for a in atoms if atom_info(a)[0] == "c"})
     nums = sorted({atom_info(a)[2] for a in atoms if atom_info(a)[0] == "n"})
-    df = get_frame(cats, nums, case["levels"], case.get("shuffle", 0))
+    grid = case.get("grid", "int")
+    df = get_frame(cats, nums, case["levels"], case.get("shuffle", 0), grid)
     out = {"rows": len(df)}
     # the family as the resolver built it (before evaluation)
     try:
@@ -226,6 +239,8 @@ def observe(case):
     if M.ndim != 2:
         out["err"] = "matrix-not-2d"
         return out
+    if grid == "half":
+        M = M * GRID_SCALE
     R = np.rint(M)
     out["integral"] = bool(np.all(np.abs(M - R) < 1e-9))
     X = R.astype(np.int64)
@@ -238,9 +253,9 @@ def observe(case):
     out["labels"] = labels
     out["widths"] = [[name, int(sl.stop - sl.start)] for name, sl in dm.common.slices.items()]
     # exact rank facts: [X | F]
-    Fcols = full_indicator(df, terms, intercept)
+    Fcols = full_indicator(df, terms, intercept, grid)
     fkey = (tuple(cats), tuple(nums), tuple(case["levels"][c] for c in cats), case.get("shuffle", 0),
-            intercept, frozenset((frozenset(t)) for t in terms))
+            grid, intercept, frozenset((frozenset(t)) for t in terms))
     if fkey not in _RANKF:
         Frows = [list(r) for r in zip(*Fcols)] if Fcols else [[] for _ in range(len(df))]
         _RANKF[fkey] = rank_profile(Frows, len(Fcols))[1] if Fcols else 0
@@ -386,6 +401,18 @@ def gen_cases(tier, seed):
         n = rng.choice([1, 2, 3])
         fam = permute_factors(rng, rng.sample(subs4, n))
         cases.append(make_case(fam, True, levels, shuffle, "intercept-later", rng.randrange(1, n + 1)))
+    # (h) factors with a single level in the data (complete coding = one column of ones, reduced
+    #     coding = no column at all)
+    n_h = 150 if tier == "quick" else 3000
+    for _ in range(n_h):
+        lv1 = dict(levels)
+        for v in rng.sample(["f", "g", "h"], rng.choice([1, 1, 2])):
+            lv1[v] = 1
+        n = rng.choice([1, 2, 2, 3])
+        fam = permute_factors(rng, rng.sample(subs4, n))
+        if rng.random() < 0.3:
+            fam = swap_atoms(rng, fam)
+        cases.append(make_case(fam, rng.random() < 0.6, lv1, shuffle, "one-level-factor"))
     if tier == "thorough":
         # (f) every ordered family over {f, g, h, x, z} in a random factor order
         for fam in ordered_families(subs5, 3):
@@ -401,6 +428,11 @@ def gen_cases(tier, seed):
             fam2 = permute_factors(rng, fam)
             rng.shuffle(fam2)
             cases.append(make_case(fam2, not ic, lv2, shuffle, "all-families/4x2-shuffled"))
+    # numeric columns: integers on one half of the cases, halves (float dtype) on the other
+    for c in cases:
+        if rng.random() < 0.5 and any(t != "1" and any(atom_info(a)[0] == "n" for a in t)
+                                      for t in c["terms"]):
+            c["grid"] = "half"
     return cases
 
 
@@ -510,7 +542,8 @@ def explore(tier, seed, res=None, replay=None):
     # distinct formulas only
     seen, uniq = set(), []
     for c in cases:
-        key = (c["formula"], tuple(sorted(c["levels"].items())), bool(c.get("clean_env")))
+        key = (c["formula"], tuple(sorted(c["levels"].items())), bool(c.get("clean_env")),
+               c.get("grid", "int"))
         if key not in seen:
             seen.add(key)
             uniq.append(c)
@@ -540,6 +573,9 @@ def explore(tier, seed, res=None, replay=None):
         case = {k: c[k] for k in ("formula", "terms", "levels", "shuffle", "kind")}
         if c.get("clean_env"):
             case["clean_env"] = True
+        if c.get("grid"):
+            case["grid"] = c["grid"]
+            res.count("grid:half")
         if "md_err" in io or io.get("md") != c["terms"]:
             # the resolver did not produce the intended family: not a C03 case (term algebra, C02)
             res.count("skipped:resolver-family-differs")
